@@ -473,7 +473,7 @@ static int restore_size (char **str, int is_mapping) {
                                 return -1;
                               cp += mb_span; /* don't check backslash in the middle of a multibyte character */
                               if ((c == '\0') || (c == '\\' && !*cp++))
-                                return 0;
+                                return -1; /* not 0: that is the size of an empty aggregate here */
                       }
                     cp++;
 
@@ -779,10 +779,7 @@ static int restore_mapping (char **str, svalue_t * sv) {
   if (save_svalue_depth)
     size = save_svalue_sizes[save_svalue_depth - 1];
   else if ((size = restore_size (str, 1)) < 0)
-    {
-      debug_error ("corrupted");
-      return 0;
-    }
+    return ROB_MAPPING_ERROR; /* nothing has been written to *sv */
 
   if (!size)
     {
@@ -1845,6 +1842,8 @@ void restore_variable (svalue_t * var, char *str) {
         error ("restore_object(): Illegal mapping format.\n");
       else if (rc & ROB_STRING_ERROR)
         error ("restore_object(): Illegal string format.\n");
+      else if (rc & ROB_CLASS_ERROR)
+        error ("restore_object(): Illegal class format.\n");
     }
 }
 
